@@ -10,3 +10,6 @@ CHECKS["C09"] = check_cell.run
 
 import check_group
 CHECKS["C13"] = check_group.run
+
+import check_color
+CHECKS["C12"] = check_color.run
